@@ -372,7 +372,8 @@ void RangeToken::addRange(const XMLInt32 start, const XMLInt32 end) {
 
         if(fSorted && fRanges[fElemCount-1] >= val1)
         {
-            for (int i = 0; i < (int)fElemCount; i +=2)
+            int i;
+            for (i = 0; i < (int)fElemCount; i +=2)
             {
                 // check if this range is already part of this one
                 if (fRanges[i] <= val1 && fRanges[i+1] >= val2)
@@ -393,6 +394,14 @@ void RangeToken::addRange(const XMLInt32 start, const XMLInt32 end) {
                     fElemCount  += 2;
                     break;
                 }
+            }
+            // No range contains the new one or starts after it: it starts inside
+            // (or at the start of) the last ranges and extends beyond them, so it
+            // belongs at the end (compactRanges merges the overlap later).
+            if (i >= (int)fElemCount)
+            {
+                fRanges[fElemCount++] = val1;
+                fRanges[fElemCount++] = val2;
             }
         }
         else
